@@ -15,7 +15,7 @@ RULE = ("decoders: 12 unmarshall_datain (INQUIRY standard and every VPD page, MO
         "(<= 200 bytes) and all-00 / all-FF / 00..FF-ramp buffers of every length 0..64. Deviations: every byte position x all 256 values "
         "(first 48 bytes; {00,01,7F,80,FF} beyond); every pair of positions among the first 12 bytes (thorough: 24) x {00,01,7F,80,FF}^2; every "
         "truncation length. buffers of 65560 and 70001 bytes (00 / FF, long well-formed lists for GET LBA STATUS, REPORT LUNS, READ KEYS, VPD pages of FFFCh bytes) with header corruptions. Budget: 2000 + 1000 x len(buffer) (300 per byte beyond 4 KiB) traced source lines inside /repo/pyscsi; exceeding it is the violation. "
-        "READ ELEMENT STATUS answers whose descriptors refer to one another (all 625 source assignments among four elements x 2 element types). Facade level: 6 methods x 10 endless device behaviours (UNIT ATTENTION alternating / never twice the same, BUSY, NOT READY, TASK SET FULL, RESERVATION CONFLICT, ACA ACTIVE, CHECK CONDITION without sense, deferred errors, GOOD with ever-changing garbage) x both transports: each call ends within 16 submissions and 400 000 lines. Retention: every decoder x ~30 answers (well-formed, constant, bad lengths, truncated) decoded 40 times each with the results and errors dropped: none of the input buffers may stay alive. Non-trivial = buffer differs from the well-formed base; distinct = distinct (decoder, buffer).")
+        "READ ELEMENT STATUS answers whose descriptors refer to one another (all 625 source assignments among four elements x 2 element types). Facade level: 6 methods x 10 endless device behaviours (UNIT ATTENTION alternating / never twice the same, BUSY, NOT READY, TASK SET FULL, RESERVATION CONFLICT, ACA ACTIVE, CHECK CONDITION without sense, deferred errors, GOOD with ever-changing garbage) x both transports: each call ends within 16 submissions and 400 000 lines. Retention: every decoder x ~30 answers (well-formed, constant, bad lengths, truncated) decoded 40 times each with the results and errors dropped: none of the input buffers may stay alive. Growth: every decoder x 3 well-formed answers x 400 never-repeating variants (counter in the last and a middle word), results dropped: memory allocated after answers 101..400 below 16 KiB. Non-trivial = buffer differs from the well-formed base; distinct = distinct (decoder, buffer).")
 ASSUMPTIONS = [
     "work is measured in executed Python source lines inside the library (sys.settrace); the budget 2000 + 1000 lines per buffer byte is about 5x the worst terminating cost measured (READ ELEMENT STATUS with a hostile descriptor length of 1: ~200 lines per byte); evidence key max_lines_within_budget reports the measured maxima per decoder",
     "returning or raising any ordinary exception within the budget is acceptable; memory is not measured separately (the decoders only slice the buffer they are given)",
@@ -258,6 +258,57 @@ def run_retention(name, hexbuf):
     return []
 
 
+GROWTH_WARMUP, GROWTH_N, GROWTH_LIMIT = 100, 300, 16384
+
+
+def growth_variant(buf, i):
+    """answer #i of a device that never answers the same twice: a counter in the last four bytes (and, for longer answers, in an
+    aligned word in the middle)"""
+    b = bytearray(buf)
+    c = (0x01020304 + i * 0x00010203) & 0xFFFFFFFF
+    w = c.to_bytes(4, "big")
+    if len(b) >= 4:
+        b[-4:] = w
+    if len(b) >= 32:
+        m = (len(b) // 2) & ~3
+        b[m:m + 4] = bytes(x ^ 0x5A for x in w)
+    return b
+
+
+def run_growth(name, hexbuf):
+    """'nor allocate without bound' over a history: 400 answers that never repeat, every result / error dropped at once; the memory
+    still allocated after answers 101..400 (tracemalloc, after a collection) stays below 16 KiB - it must not grow with the number
+    of answers decoded (a memo without eviction, a table that absorbs values, ...)"""
+    import gc
+    import tracemalloc
+    fn = decoders()[name]
+    buf = bytes.fromhex(hexbuf)
+
+    def run(lo, hi):
+        for i in range(lo, hi):
+            try:
+                fn(growth_variant(buf, i))
+            except Exception:   # noqa: BLE001
+                pass
+    run(0, GROWTH_WARMUP)
+    gc.collect()
+    was = tracemalloc.is_tracing()
+    if not was:
+        tracemalloc.start()
+    try:
+        s0 = tracemalloc.get_traced_memory()[0]
+        run(GROWTH_WARMUP, GROWTH_WARMUP + GROWTH_N)
+        gc.collect()
+        s1 = tracemalloc.get_traced_memory()[0]
+    finally:
+        if not was:
+            tracemalloc.stop()
+    if s1 - s0 > GROWTH_LIMIT:
+        return [("%s/memory_grows" % name.split("/")[0], "%s: after decoding %d further answers that never repeat (variants of %s%s, results and errors dropped) %d bytes "
+                 "more are allocated than before: memory grows with the number of answers" % (name, GROWTH_N, buf[:24].hex(), "..." if len(buf) > 24 else "", s1 - s0))]
+    return []
+
+
 HOSTILE = ["ua_alternating", "ua_counting", "busy", "not_ready", "task_set_full", "reservation_conflict", "garbage_good", "cc_nosense", "deferred", "aca"]
 DEV_METHODS = ["testunitready", "inquiry", "readcapacity10", "read10", "modesense6", "reportluns"]
 MAX_SUBMISSIONS = 16
@@ -345,6 +396,8 @@ def run_case(case, obs=None):
         return run_device(*case[1:])
     if case[0] == "retention":
         return run_retention(case[1], case[2])
+    if case[0] == "growth":
+        return run_growth(case[1], case[2])
     name, hexbuf = case
     buf = bytes.fromhex(hexbuf)
     fn = decoders()[name]
@@ -385,6 +438,18 @@ def run_partition(part, tier, seed):
                     for k, w in v:
                         acc.violation(k, w, case)
                     acc.outcomes.add(hash((name, len(variant), tuple(k for k, _ in v))))
+            for b_ in [b for k, b in bases if k == "wellformed"][:3]:
+                case = ["growth", name, bytes(b_).hex()]
+                acc.evaluations += 1
+                acc.nontrivial.add(hash(tuple(case)))
+                try:
+                    v = run_case(case)
+                except Exception:
+                    import traceback
+                    v = [("harness_error", traceback.format_exc()[-600:])]
+                for k, w in v:
+                    acc.violation(k, w, case)
+                acc.outcomes.add(hash((name, "growth", len(b_), tuple(k for k, _ in v))))
         acc.samples.append((0, ["retention", "(see rule)"]))
         return acc
     if part[0] == "device":
